@@ -114,6 +114,22 @@ def refactors():
     return out
 
 
+def repairs():
+    """repairs of known findings written by independent agents (tools/repair_prompt.py): the checks must accept them —
+    no new finding, no fail-closed rule, and the known finding they address is no longer reported."""
+    base = os.path.join(os.path.dirname(HERE), 'repairs')
+    out = []
+    if os.path.isdir(base):
+        for d in sorted(os.listdir(base)):
+            pp, mp = os.path.join(base, d, 'patch.diff'), os.path.join(base, d, 'meta.json')
+            if os.path.exists(pp) and os.path.exists(mp):
+                with open(mp) as fh:
+                    meta = json.load(fh)
+                if meta.get('accepted_by_checks') is True:
+                    out.append({'id': 'repair:' + d, 'patch': pp, 'props': None, 'silent': True, 'clears': meta.get('clears', [])})
+    return out
+
+
 def _one(args):
     prop, m, base_keys = args
     from .check import load_prop
@@ -144,6 +160,9 @@ def _one(args):
     if m.get('silent'):
         if new or ctx.errors:
             return (m['id'], 'false-alarm', new[:3] or [str(e) for e in ctx.errors[:2]])
+        still = [k for k in m.get('clears', []) if k.startswith(prop + '.') and k in {f.key for f in ctx.findings}]
+        if still:
+            return (m['id'], 'false-alarm', ['still reported after the repair: ' + still[0]])
         return (m['id'], 'silent', '')
     if new:
         return (m['id'], 'caught', new[:3])
@@ -154,7 +173,7 @@ def run(prop, seed=0, jobs=16, base_keys=None):
     from .check import load_prop
     from .model import Model
     from .report import run_rules
-    ms = load_mutants(prop) + seeded(prop) + refactors()
+    ms = load_mutants(prop) + seeded(prop) + refactors() + repairs()
     random.Random(seed).shuffle(ms)
     if base_keys is None:
         ctx, _ = run_rules(prop, load_prop(prop).RULES, Model(SourceTree()), 'thorough')
